@@ -399,9 +399,17 @@ type c28Rig struct {
 
 const c28Watchdog = 60 * time.Second
 
+// c28RigOpts selects the configuration of the agent under test.
+type c28RigOpts struct {
+	Window, TTL time.Duration // > 0: short-window flooder (see c28NewRigTimed)
+	NoSleep     bool          // sleep.enabled = false (a pure relay: forwards commands, never sleeps)
+	NoKey       bool          // management.signing_public_key not set (unsigned mode: property not applicable)
+	Priv        int           // 0: random, 1: private key present too, 2: public key only
+}
+
 // c28NewRig builds and starts a real agent with sleep enabled and a signing public key.
 func c28NewRig(r *verifkit.R, rng *verifkit.Rand, dataDir string, npeers int) (*c28Rig, error) {
-	return c28NewRigTimed(r, rng, dataDir, npeers, 0, 0)
+	return c28NewRigOpts(r, rng, dataDir, npeers, c28RigOpts{})
 }
 
 // c28NewRigTimed is c28NewRig; with window > 0 the agent's flooder is replaced, between New
@@ -409,6 +417,13 @@ func c28NewRig(r *verifkit.R, rng *verifkit.Rand, dataDir string, npeers int) (*
 // and the same signing key but a short timestamp window and seen-cache TTL, so that
 // histories in which real time passes beyond the window fit into a few seconds.
 func c28NewRigTimed(r *verifkit.R, rng *verifkit.Rand, dataDir string, npeers int, window, ttl time.Duration) (*c28Rig, error) {
+	return c28NewRigOpts(r, rng, dataDir, npeers, c28RigOpts{Window: window, TTL: ttl})
+}
+
+// c28NewRigOpts builds the agent through the real agent.New path (which wires the signing
+// key into the flooder) with the requested configuration combination.
+func c28NewRigOpts(r *verifkit.R, rng *verifkit.Rand, dataDir string, npeers int, o c28RigOpts) (*c28Rig, error) {
+	window, ttl := o.Window, o.TTL
 	gw := window
 	if gw == 0 {
 		gw = 5 * time.Minute // the agent uses the flooder's default window
@@ -417,13 +432,20 @@ func c28NewRigTimed(r *verifkit.R, rng *verifkit.Rand, dataDir string, npeers in
 	cfg := config.Default()
 	cfg.Agent.DataDir = dataDir
 	cfg.Agent.LogLevel = "error"
-	cfg.Sleep.Enabled = true
+	cfg.Sleep.Enabled = !o.NoSleep
 	cfg.Sleep.PollInterval = time.Hour // no poll cycle during a case
 	cfg.Sleep.PersistState = rng.Bool()
-	cfg.Management.SigningPublicKey = hex.EncodeToString(g.good.PublicKey[:])
 	canSign := rng.Bool() // an operator's agent also holds the private key (TriggerSleep signs with it)
-	if canSign {
-		cfg.Management.SigningPrivateKey = hex.EncodeToString(g.good.PrivateKey[:])
+	if o.Priv != 0 {
+		canSign = o.Priv == 1
+	}
+	if o.NoKey {
+		canSign = false
+	} else {
+		cfg.Management.SigningPublicKey = hex.EncodeToString(g.good.PublicKey[:])
+		if canSign {
+			cfg.Management.SigningPrivateKey = hex.EncodeToString(g.good.PrivateKey[:])
+		}
 	}
 	a, err := New(cfg)
 	if err != nil {
@@ -442,21 +464,31 @@ func c28NewRigTimed(r *verifkit.R, rng *verifkit.Rand, dataDir string, npeers in
 	if err := a.Start(); err != nil {
 		return nil, fmt.Errorf("agent.Start: %w", err)
 	}
-	if a.sleepMgr == nil {
+	if a.sleepMgr == nil && !o.NoSleep {
 		a.Stop()
 		return nil, errors.New("sleep manager not created although sleep.enabled is true")
 	}
 	h := &c28Rig{a: a, r: r, gen: g, peers: map[identity.AgentID]*c28Peer{}, canSign: canSign}
-	// recording wrappers around the agent's own callbacks (behaviour unchanged)
-	a.sleepMgr.SetCallbacks(sleep.Callbacks{
-		OnSleep: func() error { h.event("sleep"); return a.enterSleep() },
-		OnWake:  func() error { h.event("wake"); return a.exitSleep() },
-		OnPoll:  a.doPoll,
-	})
+	if a.sleepMgr != nil {
+		// recording wrappers around the agent's own callbacks (behaviour unchanged)
+		a.sleepMgr.SetCallbacks(sleep.Callbacks{
+			OnSleep: func() error { h.event("sleep"); return a.enterSleep() },
+			OnWake:  func() error { h.event("wake"); return a.exitSleep() },
+			OnPoll:  a.doPoll,
+		})
+	}
 	for i := 0; i < npeers; i++ {
 		h.ids = append(h.ids, c28ID(rng))
 	}
 	return h, nil
+}
+
+// state returns the sleep state, or "NO-SLEEP-MANAGER" for an agent with sleep disabled.
+func (h *c28Rig) state() string {
+	if h.a.sleepMgr == nil {
+		return "NO-SLEEP-MANAGER"
+	}
+	return h.a.sleepMgr.GetState().String()
 }
 
 func (h *c28Rig) event(kind string) {
